@@ -556,6 +556,51 @@ fn kd11_bound_counts_every_gzip_header_field() {
     core::mem::forget(state);
 }
 
+/// deflateBound's zlib wrapper length: the bound of a stream whose header will announce a preset dictionary (FDICT) is the
+/// bound of the same stream without one plus the four DICTID bytes deflate() then writes - decided against the flag the
+/// header writer itself computes, for every window position pair deflateSetDictionary can leave behind (C07, C13).
+#[kani::proof]
+#[kani::unwind(4)]
+#[kani::stub(core::fmt::write, stub_fmt_write)]
+#[kani::stub(core::panicking::panic_nounwind, stub_pn)]
+#[kani::stub(core::panicking::panic_nounwind_fmt, stub_pnf)]
+fn kd11_bound_counts_the_dictionary_id() {
+    let mut w = [0u8; 2 << WB];
+    let mut p = [0u16; 1 << WB];
+    let mut h = [0u16; HASH_SIZE];
+    let mut pe = [MaybeUninit::new(0u8); 4 * LB];
+    let mut sy = [0u8; 3 * LB];
+    let level: i8 = kani::any();
+    kani::assume(level >= 0 && level <= 9);
+    let mut state = typed_state(&mut w, &mut p, &mut h, &mut pe, &mut sy, WB, LB, level, 1, Strategy::Default);
+    state.status = Status::Init;
+    let n: usize = kani::any();
+    kani::assume(n <= 1 << 30);
+    let base = {
+        let mut stream = typed_stream(unsafe { &mut *(&mut state as *mut State) });
+        let b = bound(Some(&mut stream), n);
+        core::mem::forget(stream);
+        b
+    };
+    // what deflateSetDictionary leaves behind: the dictionary (or its tail) below strstart, at most MIN_MATCH - 1 bytes of
+    // it still in the look-ahead
+    let strstart: usize = kani::any();
+    let lookahead: usize = kani::any();
+    kani::assume(strstart <= 2 << WB && lookahead <= 2 && strstart + lookahead <= 2 << WB);
+    state.strstart = strstart;
+    state.lookahead = lookahead;
+    state.block_start = strstart as isize;
+    let announced = state.header() & 0x20 != 0;
+    let mut stream = typed_stream(unsafe { &mut *(&mut state as *mut State) });
+    let with = bound(Some(&mut stream), n);
+    core::mem::forget(stream);
+    assert!(with == base + if announced { 4 } else { 0 }, "the DICTID the header will carry is counted");
+    assert!(announced == (strstart != 0));
+    kani::cover!(announced && lookahead == 0);
+    kani::cover!(!announced);
+    core::mem::forget(state);
+}
+
 /// deflateGetDictionary (zlib.h: "the sliding dictionary being maintained by deflate"; zlib-ng: the last
 /// min(strstart + lookahead, w_size) bytes that deflate has taken in, look-ahead included): length and bytes for every
 /// position pair, with canaries around the caller's buffer; a NULL buffer only reports the length.
